@@ -407,14 +407,16 @@ def fam_vectorization(seed=0, n=20, max_per_type=4):
         edges = []
         A = [f"a{i}" for i in range(na)]
         B = [f"b{i}" for i in range(nb)]
-        seen = set()
+        seen = {}
 
         def add(s, t, w=None):
-            # at most one edge per (source node, target variable): the same-source-node defect is C01's finding
-            sn = s.rsplit('/', 2)[0]
-            if (sn, t) in seen:
+            # at most two edges per (source variable, target variable): parallel edges add up (their folded weight is bound
+            # to the sum of the two symbols)
+            if seen.get((s, t), 0) >= 2:
                 return
-            seen.add((sn, t))
+            seen[(s, t)] = seen.get((s, t), 0) + 1
+            for _skip in range(len(edges) % 5):
+                fp()          # keep weights out of arithmetic progressions (distinct sums)
             edges.append(EdgeSpec(s, t, fp() if w is None else w))
         if pat == 'dense':
             for s in A:
@@ -445,6 +447,9 @@ def fam_vectorization(seed=0, n=20, max_per_type=4):
             for t in A:
                 if rnd.random() < 0.5:
                     add(f"{s}/rpo/a", f"{t}/o1/{rnd.choice('uw')}")
+                if rnd.random() < 0.2:
+                    # a second variable of the same source node into the same target variable, or a parallel edge
+                    add(f"{s}/rpo/{rnd.choice('ab')}", f"{t}/o1/u")
         for s in A:
             for t in B:
                 if rnd.random() < 0.5:
